@@ -5,36 +5,38 @@ well-scoped programs — the helpers, given that the evaluators one level down a
 import EPV.Lemmas.ScopeRel
 namespace EPV.Scope
 
+variable {lex : Bool}
+
 /-- model answer against spec answer: same error, or related values with the caller's dict and
 objects handed back unchanged -/
-def RRel (ρ1 : Env) (h : Heap) : Res → Except Err Val → Prop
-  | .ok (v1, ρ', h'), .ok v2 => VRel v1 v2 ∧ ρ' = ρ1 ∧ h' = h
+def RRel (lex : Bool) (ρ1 : Env) (h : Heap) : Res → Except Err Val → Prop
+  | .ok (v1, ρ', h'), .ok v2 => VRel lex v1 v2 ∧ ρ' = ρ1 ∧ h' = h
   | .error e1, .error e2 => e1 = e2
   | _, _ => False
 
-theorem RRel.cases {ρ1 : Env} {h : Heap} {r : Res} {s : Except Err Val} (hr : RRel ρ1 h r s) :
+theorem RRel.cases {ρ1 : Env} {h : Heap} {r : Res} {s : Except Err Val} (hr : RRel lex ρ1 h r s) :
     (∃ e, r = .error e ∧ s = .error e) ∨
-    (∃ v1 v2, r = .ok (v1, ρ1, h) ∧ s = .ok v2 ∧ VRel v1 v2) := by
+    (∃ v1 v2, r = .ok (v1, ρ1, h) ∧ s = .ok v2 ∧ VRel lex v1 v2) := by
   match r, s, hr with
   | .ok (v1, ρ', h'), .ok v2, ⟨hv, he, hh⟩ => subst he; subst hh; exact .inr ⟨v1, v2, rfl, rfl, hv⟩
   | .error e1, .error e2, he => cases he; exact .inl ⟨e1, rfl, rfl⟩
 
-theorem RRel.err {ρ1 : Env} {h : Heap} (e : Err) : RRel ρ1 h (.error e) (.error e) := rfl
-theorem RRel.ok {ρ1 : Env} {h : Heap} {v1 v2 : Val} (hv : VRel v1 v2) : RRel ρ1 h (.ok (v1, ρ1, h)) (.ok v2) :=
+theorem RRel.err {ρ1 : Env} {h : Heap} (e : Err) : RRel lex ρ1 h (.error e) (.error e) := rfl
+theorem RRel.ok {ρ1 : Env} {h : Heap} {v1 v2 : Val} (hv : VRel lex v1 v2) : RRel lex ρ1 h (.ok (v1, ρ1, h)) (.ok v2) :=
   ⟨hv, rfl, rfl⟩
 
 /-- the evaluators one level down are related on every well-scoped expression -/
-def Related (ev : Expr → Env → Heap → Res) (sm : Expr → Env → Except Err Val) (h : Heap) : Prop :=
-  ∀ e exact S ρ1 ρ2, WS exact S e = true → Inv none exact S ρ1 ρ2 → RRel ρ1 h (ev e ρ1 h) (sm e ρ2)
+def Related (lex : Bool) (ev : Expr → Env → Heap → Res) (sm : Expr → Env → Except Err Val) (h : Heap) : Prop :=
+  ∀ e exact S ρ1 ρ2, WS lex exact S e = true → Inv lex none exact S ρ1 ρ2 → RRel lex ρ1 h (ev e ρ1 h) (sm e ρ2)
 
 variable {ev : Expr → Env → Heap → Res} {sm : Expr → Env → Except Err Val} {h : Heap}
 
-theorem operands_rel (hr : Related ev sm h) {a b : Expr} {exact : Bool} {S : List Name} {ρ1 ρ2 : Env}
-    (hwa : WS exact S a = true) (hwb : WS exact S b = true) (hi : Inv none exact S ρ1 ρ2) :
+theorem operands_rel (hr : Related lex ev sm h) {a b : Expr} {exact : Bool} {S : List Name} {ρ1 ρ2 : Env}
+    (hwa : WS lex exact S a = true) (hwb : WS lex exact S b = true) (hi : Inv lex none exact S ρ1 ρ2) :
     (∃ e, operands ev a b ρ1 h = .error e ∧ semOperands sm a b ρ2 = .error e) ∨
     (operands ev a b ρ1 h = .ok (none, ρ1, h) ∧ semOperands sm a b ρ2 = .ok none) ∨
     (∃ x1 y1 x2 y2, operands ev a b ρ1 h = .ok (some (x1, y1), ρ1, h) ∧
-      semOperands sm a b ρ2 = .ok (some (x2, y2)) ∧ IRel x1 x2 ∧ IRel y1 y2) := by
+      semOperands sm a b ρ2 = .ok (some (x2, y2)) ∧ IRel lex x1 x2 ∧ IRel lex y1 y2) := by
   unfold operands semOperands
   rcases (hr a exact S ρ1 ρ2 hwa hi).cases with ⟨e, h1, h2⟩ | ⟨v1, v2, h1, h2, hv⟩
   · simp only [h1, h2]; exact .inl ⟨e, rfl, rfl⟩
@@ -55,12 +57,12 @@ theorem operands_rel (hr : Related ev sm h) {a b : Expr} {exact : Bool} {S : Lis
             | cons _ _ => exact .inl ⟨.type, rfl, rfl⟩
             | nil => exact .inr (.inr ⟨_, _, _, _, rfl, rfl, hx, hy⟩)
 
-theorem forLoop_rel (hr : Related ev sm h) {x : Name} {body : Expr} {exact : Bool} {S : List Name} {ρ2 : Env}
-    (hwb : WS exact (x :: S) body = true) :
-    ∀ (items1 items2 : List Item), VRel items1 items2 → ∀ ρc, Inv (some x) exact S ρc ρ2 →
+theorem forLoop_rel (hr : Related lex ev sm h) {x : Name} {body : Expr} {exact : Bool} {S : List Name} {ρ2 : Env}
+    (hwb : WS lex exact (x :: S) body = true) :
+    ∀ (items1 items2 : List Item), VRel lex items1 items2 → ∀ ρc, Inv lex (some x) exact S ρc ρ2 →
       (∃ e, forLoop ev x body items1 ρc h = .error e ∧ semFor sm x body ρ2 items2 = .error e) ∨
       (∃ v1 v2 ρ', forLoop ev x body items1 ρc h = .ok (v1, ρ', h) ∧ semFor sm x body ρ2 items2 = .ok v2 ∧
-        VRel v1 v2) := by
+        VRel lex v1 v2) := by
   intro items1 items2 hv
   induction hv with
   | nil => intro ρc _; exact .inr ⟨[], [], ρc, rfl, rfl, .nil⟩
@@ -74,9 +76,9 @@ theorem forLoop_rel (hr : Related ev sm h) {x : Name} {body : Expr} {exact : Boo
       · simp only [h3, h4]; exact .inl ⟨e, rfl, rfl⟩
       · simp only [h3, h4]; exact .inr ⟨_, _, ρ', rfl, rfl, hv1.append hw⟩
 
-theorem quantLoop_rel (hr : Related ev sm h) {q : Bool} {x : Name} {body : Expr} {exact : Bool} {S : List Name}
-    {ρ2 : Env} (hwb : WS exact (x :: S) body = true) :
-    ∀ (items1 items2 : List Item), VRel items1 items2 → ∀ ρc, Inv (some x) exact S ρc ρ2 →
+theorem quantLoop_rel (hr : Related lex ev sm h) {q : Bool} {x : Name} {body : Expr} {exact : Bool} {S : List Name}
+    {ρ2 : Env} (hwb : WS lex exact (x :: S) body = true) :
+    ∀ (items1 items2 : List Item), VRel lex items1 items2 → ∀ ρc, Inv lex (some x) exact S ρc ρ2 →
       (∃ e, quantLoop ev q x body items1 ρc h = .error e ∧ semQuant sm q x body ρ2 items2 = .error e) ∨
       (∃ b ρ', quantLoop ev q x body items1 ρc h = .ok (b, ρ', h) ∧ semQuant sm q x body ρ2 items2 = .ok b) := by
   intro items1 items2 hv
@@ -96,8 +98,8 @@ theorem quantLoop_rel (hr : Related ev sm h) {q : Bool} {x : Name} {body : Expr}
         · simp only [if_pos hb]; exact .inr ⟨q, _, rfl, rfl⟩
         · simp only [if_neg hb]; exact ih ((x, [a]) :: ρc) hi.step
 
-theorem argToks_ws {exact : Bool} {S : List Name} : ∀ (a : Expr), WS exact S a = true →
-    ∀ t, t ∈ argToks a → WS exact S t = true := by
+theorem argToks_ws {exact : Bool} {S : List Name} : ∀ (a : Expr), WS lex exact S a = true →
+    ∀ t, t ∈ argToks a → WS lex exact S t = true := by
   intro a
   induction a with
   | seq a b iha _ =>
@@ -109,11 +111,11 @@ theorem argToks_ws {exact : Bool} {S : List Name} : ∀ (a : Expr), WS exact S a
     · subst ht; exact hw.2
   | _ => intro hw t ht; simp only [argToks, List.mem_singleton] at ht; subst ht; exact hw
 
-theorem evalArgs_rel (hr : Related ev sm h) {exact : Bool} {S : List Name} {ρ1 ρ2 : Env}
-    (hi : Inv none exact S ρ1 ρ2) :
-    ∀ (as : List Expr), (∀ t, t ∈ as → WS exact S t = true) →
+theorem evalArgs_rel (hr : Related lex ev sm h) {exact : Bool} {S : List Name} {ρ1 ρ2 : Env}
+    (hi : Inv lex none exact S ρ1 ρ2) :
+    ∀ (as : List Expr), (∀ t, t ∈ as → WS lex exact S t = true) →
       (∃ e, evalArgs ev as ρ1 h = .error e ∧ semArgs sm ρ2 as = .error e) ∨
-      (∃ vs1 vs2, evalArgs ev as ρ1 h = .ok (vs1, ρ1, h) ∧ semArgs sm ρ2 as = .ok vs2 ∧ All2 VRel vs1 vs2) := by
+      (∃ vs1 vs2, evalArgs ev as ρ1 h = .ok (vs1, ρ1, h) ∧ semArgs sm ρ2 as = .ok vs2 ∧ All2 (VRel lex) vs1 vs2) := by
   intro as
   induction as with
   | nil => intro _; exact .inr ⟨[], [], rfl, rfl, .nil⟩
@@ -127,8 +129,8 @@ theorem evalArgs_rel (hr : Related ev sm h) {exact : Bool} {S : List Name} {ρ1 
       · simp only [h3, h4]; exact .inl ⟨e, rfl, rfl⟩
       · simp only [h3, h4]; exact .inr ⟨_, _, rfl, rfl, .cons hv hws⟩
 
-theorem zip_lookup_rel : ∀ (ps : List Name) (vs1 vs2 : List Val), All2 VRel vs1 vs2 → ps.length = vs1.length →
-    ∀ x, (x ∈ ps → ∃ v1 v2, (ps.zip vs1).lookup x = some v1 ∧ (ps.zip vs2).lookup x = some v2 ∧ VRel v1 v2) ∧
+theorem zip_lookup_rel : ∀ (ps : List Name) (vs1 vs2 : List Val), All2 (VRel lex) vs1 vs2 → ps.length = vs1.length →
+    ∀ x, (x ∈ ps → ∃ v1 v2, (ps.zip vs1).lookup x = some v1 ∧ (ps.zip vs2).lookup x = some v2 ∧ VRel lex v1 v2) ∧
          (x ∉ ps → (ps.zip vs1).lookup x = none ∧ (ps.zip vs2).lookup x = none) := by
   intro ps
   induction ps with
@@ -158,15 +160,18 @@ theorem lookup_append_none {x : Name} {a b : Env} (h : a.lookup x = none) :
     (a ++ b).lookup x = b.lookup x := by
   rw [List.lookup_append, h]; rfl
 
-/-- dynamic function call: the callee's dict of the model (`params ++ closure ++ caller`) and of
-the specification (`params ++ closure`) satisfy the invariant on `ps ++ S'`, the scope of the body -/
-theorem callEnv_inv {ps : List Name} {cap1 cap2 ρ1 : Env} {S' : List Name} {vs1 vs2 : List Val}
+/-- dynamic function call: the callee's dict of the model (`params ++ closure ++ tail`, where `tail`
+is the caller's dict, or nothing when F05c is repaired) and of the specification
+(`params ++ closure`) satisfy the invariant on `ps ++ S'`, the scope of the body -/
+theorem callEnv_inv {ps : List Name} {cap1 cap2 tail : Env} {S' : List Name} {vs1 vs2 : List Val} {ex : Bool}
     (hdom : ∀ x, x ∈ S' → (cap1.lookup x).isSome = true ∧ (cap2.lookup x).isSome = true)
-    (hrel : ∀ x v1 v2, x ∈ S' → cap1.lookup x = some v1 → cap2.lookup x = some v2 → VRel v1 v2)
-    (hvs : All2 VRel vs1 vs2) (hl : ps.length = vs1.length) :
-    Inv none false (ps ++ S') (ps.zip vs1 ++ (cap1 ++ ρ1)) (ps.zip vs2 ++ cap2) := by
+    (hrel : ∀ x v1 v2, x ∈ S' → cap1.lookup x = some v1 → cap2.lookup x = some v2 → VRel lex v1 v2)
+    (hout : ex = true → ∀ x, x ∉ S' → cap1.lookup x = none ∧ cap2.lookup x = none)
+    (htail : ex = true → tail = [])
+    (hvs : All2 (VRel lex) vs1 vs2) (hl : ps.length = vs1.length) :
+    Inv lex none ex (ps ++ S') (ps.zip vs1 ++ (cap1 ++ tail)) (ps.zip vs2 ++ cap2) := by
   have hz := zip_lookup_rel ps vs1 vs2 hvs hl
-  refine ⟨?_, ?_, fun hf => by cases hf⟩
+  refine ⟨?_, ?_, ?_⟩
   · intro x hx _
     by_cases hp : x ∈ ps
     · obtain ⟨v1, v2, e1, e2, _⟩ := (hz x).1 hp
@@ -191,20 +196,41 @@ theorem callEnv_inv {ps : List Name} {cap1 cap2 ρ1 : Env} {S' : List Name} {vs1
       rw [lookup_append_some hw] at h1
       cases h1
       exact hrel x _ _ hs hw h2
+  · intro he x hx _
+    have hp : x ∉ ps := fun hm => hx (by simp [hm])
+    have hs : x ∉ S' := fun hm => hx (by simp [hm])
+    obtain ⟨n1, n2⟩ := (hz x).2 hp
+    obtain ⟨c1, c2⟩ := hout he x hs
+    rw [lookup_append_none n1, lookup_append_none n2, htail he, List.append_nil]
+    exact ⟨c1, c2⟩
 
-theorem applyFn_rel (hr : Related ev sm h) {c : Cfg} (hq : c.q.callCopies = true)
+theorem applyFn_rel (hr : Related lex ev sm h) {c : Cfg} (hq : c.q.callCopies = true) (hlex : c.q.calleeLexical = lex)
     {ps : List Name} {body : Expr} {cap1 cap2 ρ1 : Env} {vs1 vs2 : List Val}
-    (hf : IRel (.fn ps body cap1) (.fn ps body cap2)) (hvs : All2 VRel vs1 vs2) :
-    RRel ρ1 h (applyFn ev c ps body cap1 vs1 ρ1 h) (semApply sm ps body cap2 vs2) := by
+    (hf : IRel lex (.fn ps body cap1) (.fn ps body cap2)) (hvs : All2 (VRel lex) vs1 vs2) :
+    RRel lex ρ1 h (applyFn ev c ps body cap1 vs1 ρ1 h) (semApply sm ps body cap2 vs2) := by
   unfold applyFn semApply
   have hlen := hvs.length_eq
   by_cases hl : ps.length = vs1.length
   · have hl2 : ps.length = vs2.length := hl.trans hlen
     rw [if_neg (fun hne => hne hl), if_neg (fun hne => hne hl2)]
     cases hf with
-    | fn _ _ _ _ S' hws hdom hrel =>
-      have hi := callEnv_inv (ρ1 := ρ1) hdom hrel hvs hl
-      rcases (hr body false (ps ++ S') _ _ hws hi).cases with ⟨e, h1, h2⟩ | ⟨v1, v2, h1, h2, hv⟩
+    | fn _ _ _ _ S' ex hex hws hdom hrel hout =>
+      have hi : Inv lex none ex (ps ++ S') (calleeEnv c ps vs1 cap1 ρ1) (ps.zip vs2 ++ cap2) := by
+        unfold calleeEnv
+        cases hc : c.q.calleeLexical with
+        | true =>
+          simp only [if_true]
+          have := callEnv_inv (tail := []) hdom hrel hout (fun _ => rfl) hvs hl
+          simpa using this
+        | false =>
+          simp only [Bool.false_eq_true, if_false]
+          have hexf : ex = false := by
+            cases ex with
+            | false => rfl
+            | true => have := hex rfl; rw [← hlex, hc] at this; cases this
+          subst hexf
+          exact callEnv_inv (tail := ρ1) hdom hrel hout (fun hf => by cases hf) hvs hl
+      rcases (hr body ex (ps ++ S') _ _ hws hi).cases with ⟨e, h1, h2⟩ | ⟨v1, v2, h1, h2, hv⟩
       · simp only [h1, h2]; exact RRel.err e
       · simp only [h1, h2, hq, if_true]; exact RRel.ok hv
   · have hl2 : ¬ ps.length = vs2.length := fun e => hl (e.trans hlen.symm)
